@@ -2966,6 +2966,12 @@ func (rl *clientConnReadLoop) processSettingsNoWrite(f *SettingsFrame) error {
 	err := f.ForeachSetting(func(s http2.Setting) error {
 		switch s.ID {
 		case http2.SettingMaxFrameSize:
+			// The value advertised by an endpoint MUST be between 2^14 and
+			// 2^24-1; values outside this range MUST be treated as a
+			// connection error of type PROTOCOL_ERROR (RFC 9113 section 6.5.2).
+			if s.Val < 16384 || s.Val > 1<<24-1 {
+				return ConnectionError(ErrCodeProtocol)
+			}
 			cc.maxFrameSize = s.Val
 		case http2.SettingMaxConcurrentStreams:
 			cc.maxConcurrentStreams = s.Val
